@@ -131,7 +131,9 @@ PROPS = {
     },
     "C06": {
         "jobs": jobs(["conflict_ortho", "nest2_mixed", "nest3", "nest3_deep", "noevent", "exit_points"], ["plain"], 1500, 60000, variants=ALLV)
-                + rand_jobs("struct", ["plain"], 600, 8000) + rand_jobs("pseudo", ["plain"], 0, 6000),
+                + rand_jobs("struct", ["plain"], 600, 8000) + rand_jobs("pseudo", ["plain"], 0, 6000)
+                # "offered to each region exactly once" also when several trigger types of a sub-machine match the event (second seeded defect C06)
+                + jobs(["events_hier"], ["plain"], 800, 30000) + rand_jobs("evh", ["plain"], 0, 6000, nthorough=12),
         "nontrivial": ["no_transition"],
         "rule": "one external process_event at a time on a quiescent machine (no posts, no throws), independent guard vectors; lockstep "
                 "compares per-region order, return code and every no_transition call; non-trivial = at least one no_transition call "
